@@ -90,9 +90,13 @@ CHECKS.update({
         text="(1) TLC model checking of spec/NodeIds.tla: every interleaving of the atomic steps (one label per atomic operation of ConcurrentNodeIds::next) of 2 requesters x up to 3 requests (thorough: 3 x 3) over every set of used ids in 0..5, invariant Unique, "
              "liveness AllDone; the load-then-store variant is refuted (sensitivity). (2) schedules -> code: with hook H1 every atomic operation of the real next() is a yield point; a token-passing scheduler enumerates depth-first ALL interleavings of real threads for "
              "the small configurations (2x1, 2x2, 2+1, 3x1 requests, 8 shapes of the recyclable set) and samples larger ones; each complete schedule is one trace line checked by TLC against NodeIdsOps.tla (TraceIds.tla): returned ids pairwise distinct and not in use (property), "
-             "every step's operation and the generator's four state words equal the spec's Step function (conformance). (3) builds in rayon pools of 2..16 threads on histories with 8-20 trees and many bucket creations next to single-item children, validated by TraceMain.tla with the C01 conjuncts.",
+             "every step's operation and the generator's four state words equal the spec's Step function (conformance). (3) builds in rayon pools of 2..16 threads on histories with 8-20 trees and many bucket creations next to single-item children, validated by TraceMain.tla with the C01 conjuncts. "
+             "(4) unbounded: spec/NodeIdsProof.tla states the same atomic steps for ANY set of threads requesting ids forever over ANY used set; its inductive invariant (every id handed out is a distinct recyclable gap below the cursor or a distinct value of the fresh counter) "
+             "is proved with TLAPS (83 obligations, re-proved by every run); TLC checks that NodeIds.tla refines it and that its assumptions hold for what ConcurrentNodeIds::new computes (NodeIdsRefine.tla, every used set of 0..5 in the thorough tier). "
+             "(5) the per-thread write-back buffer TmpNodes (hook H5 exports the type): spec/TmpNodes.tla proves by TLC that deferring put/remove/remap to the end equals executing them in order under the discipline the type asserts; every operation sequence up to length 3 (thorough 4) "
+             "and seeded longer ones run on the real type and to_delete/to_insert are compared with the spec (TraceTmp.tla, conformance).",
         note="Relaxed memory orderings are not modelled (sequentially consistent interleavings of the atomic operations only); rayon's own scheduling is sampled, not enumerated.",
-        ref="5 (C13)", technique="TLA+ model checking + schedule enumeration on the real code through a yield-point hook, validated by TLC"),
+        ref="5 (C13)", technique="TLA+ model checking + TLAPS proof of the unbounded generator + schedule enumeration on the real code through a yield-point hook, validated by TLC"),
 })
 
 CHECKS.update({
